@@ -189,15 +189,19 @@ theorem src_store_var_uint_eq (v : Int) (k : Nat) (b : Builder R) :
     store_var_uint v k b = ofFlag (BOp.storeVarUint v k b) := by
   unfold store_var_uint BOp.storeVarUint
   by_cases h0 : v = 0
-  · simp only [h0, if_true, src_store_uint_eq, bindS_retU]
-  · simp only [h0, if_false, src_store_uint_eq, bindS_retU, andThen_ofFlag, ceilDiv8, py_bitLength_eq_bitLen]
+  · srcb_if; rw [if_pos h0]
+    simp only [h0, src_store_uint_eq, bindS_retU]
+  · srcb_if; rw [if_neg h0]
+    simp only [src_store_uint_eq, bindS_retU, andThen_ofFlag, ceilDiv8, py_bitLength_eq_bitLen]
 
 theorem src_store_var_int_eq (v : Int) (k : Nat) (b : Builder R) :
     store_var_int v k b = ofFlag (BOp.storeVarInt v k b) := by
   unfold store_var_int BOp.storeVarInt
   by_cases h0 : v = 0
-  · simp only [h0, if_true, src_store_uint_eq, bindS_retU]
-  · simp only [h0, if_false, src_store_uint_eq, src_store_int_eq, bindS_retU, andThen_ofFlag, ceilDiv8, py_bitLength_eq_bitLen,
+  · srcb_if; rw [if_pos h0]
+    simp only [h0, src_store_uint_eq, bindS_retU]
+  · srcb_if; rw [if_neg h0]
+    simp only [src_store_uint_eq, src_store_int_eq, bindS_retU, andThen_ofFlag, ceilDiv8, py_bitLength_eq_bitLen,
       natAbs_mag, Nat.add_assoc]
 
 theorem src_store_coins_eq (v : Int) (b : Builder R) : store_coins v b = ofFlag (BOp.storeCoins v b) := by
